@@ -537,7 +537,7 @@ impl<F: Fam> Ctx<F> {
                     }
                     // internal iteration (fold) of what is left after `skip` next() calls enumerates
                     // exactly what next() yields from there, in the same order
-                    if out.len() == n {
+                    if out.len() == n && n <= 20_000 {
                         let skip = clone_idx.unwrap_or(0).min(n);
                         let mut it = set.iter();
                         for _ in 0..skip {
